@@ -197,16 +197,42 @@ def grid_is_consistent(self):
     return prob is None
 
 
+def _manual_invariant(cls):
+    import functools
+
+    def wrap(f):
+        @functools.wraps(f)
+        def inner(self, *a, **k):
+            out = f(self, *a, **k)
+            if not grid_is_consistent(self):
+                raise GridInvariantBroken("Grid invariant broken after %s" % f.__name__)
+            return out
+        return inner
+
+    for name, attr in list(cls.__dict__.items()):
+        if isinstance(attr, property) and attr.fset is not None:
+            setattr(cls, name, property(attr.fget, wrap(attr.fset), attr.fdel, attr.__doc__))
+        elif callable(attr) and (not name.startswith("_") or name == "__init__") and not isinstance(attr, (staticmethod, classmethod, type)):
+            setattr(cls, name, wrap(attr))
+
+
 def check_pipeline(ctx, case):
     import warnings
-    import icontract
     import abtem
     from abtem.core import grid as grid_mod
     rng = np.random.default_rng(case["seed"])
     orig = dict(grid_mod.Grid.__dict__)
     n0 = _EVALS["n"]
     deg0 = _EVALS["degenerate"]
-    icontract.invariant(grid_is_consistent, error=GridInvariantBroken)(grid_mod.Grid)
+    try:
+        import icontract
+        icontract.invariant(grid_is_consistent, error=GridInvariantBroken)(grid_mod.Grid)
+        ctx.monitor("invariant-engine-icontract")
+    except ImportError:
+        # the contracts library is installed by setup.sh into .deps; without it the same invariant is attached by a
+        # plain wrapper around every public method and property setter of Grid
+        _manual_invariant(grid_mod.Grid)
+        ctx.monitor("invariant-engine-manual")
     broken = None
     try:
         with warnings.catch_warnings():
